@@ -630,7 +630,8 @@ def minimize_lbfgsb(
                         nit=istate.nit,
                         status=istate.warnflag,
                         message=istate.task_str,
-                        x=x,
+                        # a copy: x is updated in place at the next iteration
+                        x=np.copy(x),
                         success=istate.is_success,
                         hess_inv=LbfgsInvHessProduct(
                             np.atleast_2d(np.diff(np.array(X), axis=0)),
